@@ -25,7 +25,7 @@ RULE = ('cases = (function form, nrows, set of failing rows, set of failing fiel
 ASSUMPTIONS = ['the private exception type identifies the converter failure', 'config default is read when the view is constructed (anchor mechanism)']
 EXC_NAMES_ = sorted(['InjectedFault'] + [b.__name__ for b in (KeyError, IndexError, ValueError, TypeError, AttributeError, ZeroDivisionError, RuntimeError, AssertionError, LookupError, ArithmeticError, UnicodeError, OSError, NotImplementedError, Exception)] + ['StopIteration'])
 FORMS = ['convert-callable', 'convert-multi', 'convert-method', 'fieldmap-dict', 'convert-passrow', 'convert-where', 'convertall', 'convertnumbers', 'fieldmap', 'rowmap', 'rowmapmany']
-REQUIRED = (['form:' + f for f in FORMS] + ['policy-passed-by-position', 'falsy-errorvalue', 'policy:False', 'policy:True', 'policy:inline', 'via:config', 'via:arg',
+REQUIRED = (['form:' + f for f in FORMS] + ['form:convert-stacked', 'stacked-converts-with-different-policies', 'policy-passed-by-position', 'falsy-errorvalue', 'policy:False', 'policy:True', 'policy:inline', 'via:config', 'via:arg',
             'fail-first-row', 'fail-last-row', 'fail-consecutive', 'fail-all-rows', 'exception-surfaced-at-failing-row',
             'inline-exception-delivered', 'errorvalue-delivered', 'row-dropped', 'generator-rows-kept-before-failure', 'rowmap:lazy-mapper-result', 'rows-longer-than-the-header', 'len-of-the-view-taken', 'cells-holding-exception-objects'] +
             ['exc:' + e for e in EXC_NAMES_])
@@ -53,6 +53,8 @@ EXC_NAMES = sorted(EXC_TYPES)
 
 
 def cases(ctx):
+    for c in _stacked_cases(ctx):
+        yield c
     maxn = ctx.pick(5, 7)
     count = [0]
     for form in FORMS:
@@ -97,6 +99,74 @@ def cases(ctx):
                                                        'lazy': ('generator', 'genexp', 'map')[count[0] % 3]}
 
 
+def _stacked_cases(ctx):
+    """a convert view directly on top of another convert view, each with its own policy (and error value): the policy of a stage
+    decides what *its* failing conversions become, whatever the stage above or below was given"""
+    for n in range(1, 4):
+        for k in range(1, n + 1):
+            for failrows in itertools.combinations(range(n), k):
+                for ff in (('a',), ('b',), ('a', 'b')):
+                    for p1 in (None, False, True, 'inline'):
+                        for p2 in (None, False, True, 'inline'):
+                            for ev1, ev2 in ((None, None), ('E1', 'E2'), ('E', 'E')):
+                                yield {'form': 'convert-stacked', 'n': n, 'failrows': list(failrows), 'failfields': list(ff), 'policy': p2, 'inner': p1,
+                                       'via': 'arg', 'errorvalue': ev2, 'errorvalue1': ev1, 'pre': 0, 'exc': EXC_NAMES[(n + k + len(ff)) % len(EXC_NAMES)]}
+
+
+def _judge_stacked(case, ctx):
+    n, p1, p2, ev1, ev2 = case['n'], case['inner'], case['policy'], case['errorvalue1'], case['errorvalue']
+    failrows, failfields = set(case['failrows']), set(case['failfields'])
+    ctx.op('form:convert-stacked')
+    ctx.mark_nontrivial()
+    if p1 != p2:
+        ctx.seen('stacked-converts-with-different-policies')
+    Fault = EXC_TYPES[case['exc']]
+    if case['exc'] == 'StopIteration':
+        Fault = EXC_TYPES['InjectedFault']
+
+    def conv(v):
+        f, i = v[0], int(v[1:])
+        if i in failrows and f in failfields:
+            raise Fault((i, f))
+        return v.upper()
+    table = [['id', 'a', 'b']] + [[i, 'a%d' % i, 'b%d' % i] for i in range(n)]
+    kw1 = {} if p1 is None else {'failonerror': p1}
+    kw2 = {} if p2 is None else {'failonerror': p2}
+    if ev1 is not None:
+        kw1['errorvalue'] = ev1
+    if ev2 is not None:
+        kw2['errorvalue'] = ev2
+    view = petl.convert(petl.convert(table, 'a', conv, **kw1), 'b', conv, **kw2)
+    got, raised = [], None
+    try:
+        for r in iter(view):
+            got.append(tuple(r))
+    except Exception as e:  # noqa: the exception is the observation
+        raised = type(e).__name__
+        del e
+    exp, exp_raise = [('id', 'a', 'b')], None
+    for i in range(n):
+        cells = {}
+        for f, pol, ev in (('a', p1, ev1), ('b', p2, ev2)):
+            if i in failrows and f in failfields:
+                if pol is True:
+                    exp_raise = Fault.__name__
+                    break
+                cells[f] = ev if pol in (None, False) else ('<exception>', Fault.__name__)
+            else:
+                cells[f] = ('%s%d' % (f, i)).upper()
+        if exp_raise:
+            break
+        exp.append((i, cells['a'], cells['b']))
+
+    def norm(rows):
+        return [tuple(('<exception>', type(c).__name__) if isinstance(c, BaseException) else c for c in r) for r in rows]
+    if norm(got) != exp or raised != exp_raise:
+        return {'kind': 'stacked-convert-policies-mixed-up', 'inner-policy': p1, 'outer-policy': p2, 'errorvalues': [ev1, ev2],
+                'expected': exp, 'expected-raise': exp_raise, 'observed': norm(got), 'observed-raise': raised}
+    return None
+
+
 PETL_SIDE = ('convert-method', 'fieldmap-dict')       # the failure arises in petl's own adapter around the argument, at field a
 
 
@@ -128,6 +198,8 @@ def _table(case):
 
 
 def judge(case, ctx):
+    if case['form'] == 'convert-stacked':
+        return _judge_stacked(case, ctx)
     form, n, policy, via, ev, pre = case['form'], case['n'], case['policy'], case['via'], case['errorvalue'], case['pre']
     failrows, failfields = set(case['failrows']), set(case['failfields'])
     ctx.op('form:' + form)
